@@ -37,6 +37,7 @@ var c17Alphabet = []string{
 	"reload config A (receiver rA)", "reload config B (receiver rB)", "reload a file that does not parse", "reload an ill-formed config (undefined receiver)",
 	"reload a valid config whose templates cannot be loaded (subscriber fails)", "fire X", "advance 15s",
 	"reload a valid config whose tracing section cannot be applied (last fallible step of a reload)",
+	"advance 50s (the alert provider's GC tick, every 45s, also collects the subscriptions of replaced components)",
 }
 
 func c17Run(t *testing.T, h []int) (res seqx.Result) {
@@ -101,6 +102,8 @@ func c17Run(t *testing.T, h []int) (res seqx.Result) {
 				fired = true
 			case 6:
 				time.Sleep(15 * time.Second)
+			case 8:
+				time.Sleep(50 * time.Second)
 			case 7:
 				// config.Load accepts it; the tracing manager refuses header values read from files - every time
 				if err := x.f.reload(c17Conf("rC") + "tracing:\n  client_type: grpc\n  endpoint: 'localhost:4317'\n  insecure: true\n  headers:\n    X-Scope-OrgID:\n      files: ['/nonexistent/tenant']\n"); err == nil {
